@@ -275,6 +275,9 @@ class World(BaseWorld):
         if self.nops >= c["n_ops"]:
             return None
         ncons = len(self.cons.items) + len(self.logic)
+        if getattr(self, "window", 0) == 1 and c.get("w_remap", 0) > 0 and rng.random() < 0.5:
+            # a converted form has just been taken from this object: re-pin the mapping now, while nothing else has changed
+            return {"op": "remap", "how": rng.choice(["set_mapping", "set_reverse_mapping"]), "r": rng.randrange(1 << 16)}
         table = [("cons", 5 if ncons < c["max_cons"] else 0), ("logic", c["w_logic"] if (self.kind == BOOL and ncons < c["max_cons"]) else 0),
                  ("obj", c["w_obj"]), ("copy", c["w_hist"]), ("refresh", c["w_hist"]), ("info", c["w_hist"]),
                  ("observe", c["w_obs"]), ("valid", 0.7), ("remap", c.get("w_remap", 0))]
@@ -859,7 +862,7 @@ def gen_cfg(rng, prop, tier):
         "lams": rng.choice([[1], [0.5, 1, 1.5, 2, 3, 4], [2, 4], [0.5]]),
         "p_special": rng.choice([0.0, 0.3, 0.6]), "p_near_miss": rng.choice([0.0, 0.4, 0.7]), "p_skewed": rng.choice([0.0, 0.2, 0.5]), "p_model_arg": rng.choice([0.0, 0.3, 0.6]),
         "max_cons": rng.choice([1, 2, 3, 5]),
-        "w_logic": 0, "w_obj": rng.choice([0, 0.5, 1.5]), "w_hist": rng.choice([0, 0.5, 1.5]), "w_obs": rng.choice([0, 0.5]), "w_remap": rng.choice([0, 0, 0.5, 1.5]), "forms_first": rng.random() < 0.4, "p_bigcoef": rng.choice([0.0, 0.0, 0.15, 0.4]), "p_wide": rng.choice([0.0, 0.0, 0.0, 0.0, 0.012]), "big_offset": rng.choice([0, 0, 0, 0, 0, 0, 2 ** 36, -(2 ** 36), 2 ** 34 + 1]),
+        "w_logic": 0, "w_obj": rng.choice([0, 0.5, 1.5]), "w_hist": rng.choice([0, 0.5, 1.5]), "w_obs": rng.choice([0, 0.5, 1.5]), "w_remap": rng.choice([0, 0, 0.5, 1.5]), "forms_first": rng.random() < 0.5, "p_bigcoef": rng.choice([0.0, 0.0, 0.15, 0.4]), "p_wide": rng.choice([0.0, 0.0, 0.0, 0.0, 0.012]), "big_offset": rng.choice([0, 0, 0, 0, 0, 0, 2 ** 36, -(2 ** 36), 2 ** 34 + 1]),
         "n_ops": rng.choice([2, 4, 7, 12]),
         "half_bounds": tier == "thorough" or rng.random() < 0.3,
     }
